@@ -115,6 +115,10 @@ def build_case(i, source, stub, overwrite, fx_root, meta=None):
     return c
 
 
+def _build_case_star(job):
+    return build_case(*job)
+
+
 def execute(ctx, fx_root, idxs, chunk=24):
     """import t<i>_src / t<i>_out in fresh interpreters and run the workload; returns {name: [status, value]}"""
     script = os.path.join(ctx.work, "c16_runner.py")
@@ -151,10 +155,10 @@ def evaluate(ctx, cases, fx_root):
         flagged = [c for c in good if c["i"] in codes]
         if flagged:
             outs = common.run_coq_shards(ctx.work, "c16cl", HEADER, [c["term"] for c in flagged], "ccase",
-                                         "map clauses cases", shard_size=150)
-            rows = re.findall(r"\[((?:true|false)(?:;\s*(?:true|false))*)\]", " ".join(o for _, o in outs))
-            for c, row in zip(flagged, rows):
-                clauses[c["i"]] = [x.strip() == "true" for x in row.split(";")]
+                                         "bad clause_code 0 cases", shard_size=150)
+            for k, num in common.parse_bad(outs):
+                bits = bin(num)[3:]          # drop '0b1'
+                clauses[flagged[k]["i"]] = [b == "1" for b in bits]
     beh = {}
     res = execute(ctx, fx_root, [c["i"] for c in cases if c["output"] is not None])
     for c in cases:
@@ -190,11 +194,11 @@ def describe(c, code, cl, beh):
 
 def run(ctx):
     rnd = random.Random(ctx.seed * 7919 + 16)
-    n = 300 if ctx.tier == "quick" else 3000
+    n = 160 if ctx.tier == "quick" else 3000
     fx_root = os.path.join(ctx.work, "fx")
     os.makedirs(fx_root)
     fx = _load_fixture(fx_root)
-    cases = []
+    cases, jobs = [], []
     dist = {"placement": {}, "k": {0: 0, 5: 0}, "changed": 0, "apply_noop": 0, "codes": {}, "moved_nonempty": 0,
             "behaviour_ok": 0, "behaviour_fail": 0, "impl_raised": 0, "source_gen_broken": 0}
     try:
@@ -210,12 +214,15 @@ def run(ctx):
                     forced = [(st, rnd.choice([p for s2, _, p in G.IMPORT_POOL if s2 == st][0])) for st, _ in forced]
                 src = G.gen_source(rnd, fx, directed=forced)
             stub = G.make_stub(f"t{i}_src", fx_root, src, rnd, fx, k)
-            c = build_case(i, src["text"], stub, rnd.random() < 0.3, fx_root, {"desc": src["desc"], "k": k, "funcs": src["funcs"]})
-            cases.append(c)
+            jobs.append((i, src["text"], stub, rnd.random() < 0.3, fx_root, {"desc": src["desc"], "k": k, "funcs": src["funcs"]}))
             dist["k"][k] += 1
             for d in src["desc"]:
                 p = d.split(":")[0]
                 dist["placement"][p] = dist["placement"].get(p, 0) + 1
+        # the real code (libcst is slow: ~0.8 s per case) runs in worker processes
+        from concurrent.futures import ProcessPoolExecutor
+        with ProcessPoolExecutor(max_workers=common.NCPU) as ex:
+            cases = list(ex.map(_build_case_star, jobs, chunksize=4))
         codes, clauses, beh = evaluate(ctx, cases, fx_root)
     finally:
         _unload_fixture(fx_root)
